@@ -27,7 +27,6 @@ GUARDED = {
     ("rssl_formatter", "format_template_param_list", 0): "exporters-build-no-template-defaults",
     ("rssl_formatter", "format_template_param_list", 1): "exporters-build-no-template-defaults",
     ("rssl_formatter", "format_location_annotation", 0): "packoffset-never-parsed",
-    ("rssl_typer", "apply_template_type_substitution", 0): "template-param-layers-are-types",
     ("rssl_hlsl", "generate_function_inner", 0): "template-value-kinds",
     ("rssl_msl", "generate_function_inner", 0): "template-value-kinds",
     ("rssl_hlsl", "generate_type_impl", 0): "type-layers-exhausted",
@@ -36,7 +35,6 @@ GUARDED = {
 REASONS = {
     "exporters-build-no-template-defaults": "both exporters construct TemplateTypeParam / TemplateValueParam with `default: None` (checked)",
     "packoffset-never-parsed": "a PackOffset annotation only originates from the parser's packoffset production, which aborts first (see C08.unimpl/rssl_parser/parse_packoffset)",
-    "template-param-layers-are-types": "TypeLayer::TemplateParam is only registered for type parameters, whose substitution entry is a Type",
     "template-value-kinds": "non-type template arguments are evaluated to Bool / IntLiteral / Int32 / UInt32 only (other value types are rejected as non-constant)",
     "type-layers-exhausted": "remaining TypeLayer variants (StructTemplate, TemplateParam) never type an exported declaration",
 }
